@@ -296,7 +296,7 @@ func compareCodec(c *Ctx, rule, name string, enc, dec *prog.Func, declared int64
 	}
 	em, dm := norm(et), norm(dt)
 	key := name + ": " + short(enc.Key) + " ↔ " + short(dec.Key)
-	if len(em) < minEntries || len(dm) < minEntries {
+	if (len(em) < minEntries && len(dm) < minEntries) || len(em) == 0 || len(dm) == 0 {
 		c.undec(rule, key, fmt.Sprintf("codec not recognised: %d writer entries, %d reader entries (expected at least %d)", len(em), len(dm), minEntries))
 		return
 	}
